@@ -8,7 +8,7 @@ CHECKS = {
          "Trusted: fontTools binary decompilers, the two reference interpreters in vlib (self-tested against fontTools getTransform; SVG semantics cross-checked with resvg), tolerances of DESIGN §3.2."),
 
  "C15": ("exhaustive enumeration of small colour sets + Hypothesis sets/fonts vs the statement as a predicate", "§4 C15",
-         "The palette function is judged on all 82 160 subsets (size <= 6) of a 21-colour universe (exhaustive over that universe) and on generated larger sets; generated COLRv0/COLRv1 fonts are read back from the binary and every palette/paint colour fact of the statement is checked. Exhaustive only for the small universe; sampling beyond it.",
+         "The palette function is judged on all 82 160 subsets (size <= 6) of a 21-colour universe and the 94 542 subsets (size <= 5) of a 28-colour universe that contain an alpha-only variant (exhaustive over those universes) and on generated larger sets; generated COLRv0/COLRv1 fonts are read back from the binary and every palette/paint colour fact of the statement is checked. Exhaustive only for the small universe; sampling beyond it.",
          "Trusted: fontTools CPAL/COLR decompilers; own SVG colour parser (PIL CSS table)."),
  "C16": ("generated affines/gradients at encoder branch boundaries; field-quantised recomposition per COLR spec, compile round trip, colour-at-mapped-point oracle", "§4 C16",
          "Generated affines (mixture aimed at every branch boundary and range limit of paint.transformed) and gradient geometries; each emitted paint is decoded per the COLR specification after quantising every field to its OpenType type and must reproduce the affine within the propagated quantisation bound, in isolation and after compiling into a real COLR table; out-of-range values must raise. Sampling of a continuous domain with boundary-directed generators.",
